@@ -29,6 +29,8 @@ type taintCtx struct {
 	isSink  func(in ssa.Instruction) (ssa.Value, string, bool) // (value stored, description, ok): a store into shared cache state
 	summ    map[string]*taintSummary
 	running map[string]bool
+	// noTaint: a store that does not taint the object it stores into (an exempt, keyed memo)
+	noTaint func(st *ssa.Store) bool
 }
 
 func (tc *taintCtx) summary(fn *ssa.Function, param int) *taintSummary {
@@ -174,6 +176,9 @@ func (tc *taintCtx) analyse(fn *ssa.Function, sources []ssa.Value) *taintResult 
 						changed = true
 					}
 				case *ssa.Store:
+					if tc.noTaint != nil && tc.noTaint(x) {
+						continue
+					}
 					if res.val[x.Val] || res.blk[b] {
 						if mark(container(x.Addr), in) {
 							changed = true
